@@ -340,6 +340,19 @@ theorem pay_conts (o : Int) (cs : List (List β)) : pay (conts o cs) = cs.flatte
     simp only [conts, pay_cons, ih, List.flatten_cons]
     simp [payload]
 
+theorem pay_append (a b : List (Msg β)) : pay (a ++ b) = pay a ++ pay b := by
+  simp [pay]
+
+/-- what may follow the chunks of a transfer: nothing, or the `FAULT` of a stopped leader -/
+def Tail (tl : List (Msg β)) : Prop := tl = [] ∨ tl = [ctl .fault]
+
+theorem pay_tail {tl : List (Msg β)} (h : Tail tl) : pay tl = [] := by
+  rcases h with rfl | rfl <;> simp [pay, payload, ctl]
+
+theorem pay_conts_tail (o : Int) (cs : List (List β)) {tl : List (Msg β)} (h : Tail tl) :
+    pay (conts o cs ++ tl) = cs.flatten := by
+  rw [pay_append, pay_conts, pay_tail h, List.append_nil]
+
 theorem aofLoop_prefix (fin : Fin) (n : Nat) (ms : List (Msg β)) :
     (aofLoop fin n ms).2.1 <+: pay ms := by
   induction ms generalizing n with
@@ -390,14 +403,14 @@ theorem rdbLoop_complete (fin : Fin) (n r : Nat) (ms : List (Msg β))
           have := ih n (r + 1 - (payload m).length) hc
           omega
 
-/-- a complete snapshot transfer of `CONTINUE` chunks yields exactly the snapshot -/
-theorem rdbLoop_conts_complete (fin : Fin) (n : Nat) (o : Int) (cs : List (List β))
-    (hc : (rdbLoop fin n cs.flatten.length (conts o cs)).2.2 = none) :
-    (rdbLoop fin n cs.flatten.length (conts o cs)).2.1 = cs.flatten := by
-  have hp := rdbLoop_prefix fin n cs.flatten.length (conts o cs)
-  rw [pay_conts] at hp
+/-- a complete snapshot transfer yields exactly the snapshot when what the leader sends is
+    (a prefix of) the snapshot -/
+theorem rdbLoop_complete_eq (fin : Fin) (n : Nat) (ms : List (Msg β)) (sn : List β)
+    (hp : pay ms <+: sn) (hc : (rdbLoop fin n sn.length ms).2.2 = none) :
+    (rdbLoop fin n sn.length ms).2.1 = sn := by
+  have h1 := (rdbLoop_prefix fin n sn.length ms).trans hp
   have hl := rdbLoop_complete fin n _ _ hc
-  exact hp.eq_of_length_le hl
+  exact h1.eq_of_length_le hl
 
 /-! ### the leader's replies -/
 
@@ -409,12 +422,22 @@ inductive Shape (h : Hist β) (c : Id) (rid : Id) : List (Msg β) → Prop
   | clearThen (ms : List (Msg β)) : Shape h c rid (ctl .clear :: ms)
   | hello (o : Int) (hr : rid = "" ∨ rid = "?") : Shape h c rid [⟨.info, c, false, o, 0, []⟩]
   | handover (o : Int) : Shape h c rid [⟨.handover, c, false, o, 0, []⟩]
-  | aof (off : Int) (cs : List (List β)) (k : Nat) (h0 : 0 ≤ off)
-      (hb : cs.flatten = hseg h rid off.toNat k) :
-      Shape h c rid (⟨.info, "", true, off, -1, []⟩ :: conts off cs)
-  | rdb (off : Int) (base : Nat) (s : List β) (cs : List (List β))
-      (hs : s = h.snap rid base) (hb : cs.flatten = s) :
-      Shape h c rid (⟨.info, "", false, base, s.length, []⟩ :: conts off cs)
+  | aof (off : Int) (cs : List (List β)) (tl : List (Msg β)) (k : Nat) (h0 : 0 ≤ off)
+      (hb : cs.flatten = hseg h rid off.toNat k) (htl : Tail tl) :
+      Shape h c rid (⟨.info, "", true, off, -1, []⟩ :: (conts off cs ++ tl))
+  | rdb (off : Int) (base : Nat) (s : List β) (cs : List (List β)) (tl : List (Msg β))
+      (hs : s = h.snap rid base) (hb : cs.flatten <+: s) (htl : Tail tl) :
+      Shape h c rid (⟨.info, "", false, base, s.length, []⟩ :: (conts off cs ++ tl))
+
+theorem tail_if (fault : Bool) : Tail (if fault then [ctl .fault] else ([] : List (Msg β))) := by
+  cases fault
+  · exact Or.inl rfl
+  · exact Or.inr rfl
+
+theorem flatten_take_prefix (cs : List (List β)) (k : Nat) : (cs.take k).flatten <+: cs.flatten := by
+  conv => rhs; rw [← List.take_append_drop k cs]
+  rw [List.flatten_append]
+  exact List.prefix_append _ _
 
 theorem sendData_shape (h : Hist β) (c : Id) (L : Leader β) (hL : L.Faithful h) (rid : Id)
     (off : Int) (ch : List Nat) : Shape h c rid (L.sendData rid off ch).msgs := by
@@ -432,17 +455,25 @@ theorem sendData_shape (h : Hist β) (c : Id) (L : Leader β) (hL : L.Faithful h
         simp only [Leader.inAof, Bool.and_eq_true, decide_eq_true_eq] at hin
         obtain ⟨⟨_, hlo⟩, hhi⟩ := hin
         simp only [Data.right] at hhi htl
-        refine .aof _ _ (d.bytes.length - (off - (d.base : Int)).toNat + L.tail.length) (by omega) ?_
-        rw [chop_flatten, hseg_append, ← hid]
-        congr 1
-        · rw [hf.1, hseg_drop _ _ _ _ _ (by simp; omega)]
-          simp only [hseg_length]
+        have hall : (chop ch (d.bytes.drop (off - (d.base : Int)).toNat ++ L.tail)).1.flatten =
+            hseg h rid off.toNat (d.bytes.length - (off - (d.base : Int)).toNat + L.tail.length) := by
+          rw [chop_flatten, hseg_append, ← hid]
           congr 1
-          omega
-        · rw [htl]
-          simp only [hseg_length]
-          congr 1
-          omega
+          · rw [hf.1, hseg_drop _ _ _ _ _ (by simp; omega)]
+            simp only [hseg_length]
+            congr 1
+            omega
+          · rw [htl]
+            simp only [hseg_length]
+            congr 1
+            omega
+        split
+        · have := Shape.aof (h := h) (c := c) (rid := rid) off _ [] _ (by omega) hall (Or.inl rfl)
+          simpa using this
+        · next k fault _ =>
+          have hpre := flatten_take_prefix (chop ch (d.bytes.drop (off - (d.base : Int)).toNat ++ L.tail)).1 k
+          rw [hall] at hpre
+          exact .aof off _ _ _ (by omega) (hseg_prefix h rid _ _ _ hpre) (tail_if fault)
     · split
       · exact .ctl _ (Or.inr (Or.inl rfl))
       · next s hs =>
@@ -451,7 +482,15 @@ theorem sendData_shape (h : Hist β) (c : Id) (L : Leader β) (hL : L.Faithful h
           · exact .ctl _ (Or.inr (Or.inr rfl))
           · next hne =>
             have hid : L.cur = rid := by simpa using hne
-            exact .rdb _ _ _ _ (by rw [← hid]; exact hf.2 s hs) (chop_flatten _ _)
+            have hsn : s = h.snap rid d.base := by rw [← hid]; exact hf.2 s hs
+            split
+            · have := Shape.rdb (h := h) (c := c) (rid := rid) off d.base s (chop ch s).1 [] hsn
+                (by rw [chop_flatten]; exact List.prefix_refl _) (Or.inl rfl)
+              simpa using this
+            · next k fault _ =>
+              have hpre := flatten_take_prefix (chop ch s).1 k
+              rw [chop_flatten] at hpre
+              exact .rdb off d.base s _ _ hsn hpre (tail_if fault)
         · exact .ctl _ (Or.inr (Or.inl rfl))
 
 theorem handle_shape (h : Hist β) (v : View β) (hL : v.l4.Faithful h) (rid : Id) (roff : Int)
@@ -690,8 +729,8 @@ theorem startPoint_at_id (bk : Backend) (F : Store β) (x : Id) (hx1 : x ≠ "")
 
 theorem aofRecv_ok {h : Hist β} (bk : Backend) (F1 : Store β) (x : Id) (ms : List (Msg β))
     (fin : Fin) (budget lost : Nat) (id : Id) (hx1 : x ≠ "") (hx2 : x ≠ "?") (hat : At bk F1 x)
-    (off : Int) (cs : List (List β)) (k : Nat) (hms : ms = conts off cs)
-    (hb : cs.flatten = hseg h x off.toNat k) (hf : FaithfulAt h F1.dirs id) :
+    (off : Int) (cs : List (List β)) (tl : List (Msg β)) (k : Nat) (hms : ms = conts off cs ++ tl)
+    (htl : Tail tl) (hb : cs.flatten = hseg h x off.toNat k) (hf : FaithfulAt h F1.dirs id) :
     WF bk (aofRecv F1 off.toNat ms fin budget lost).store ∧
       FaithfulAt h (aofRecv F1 off.toNat ms fin budget lost).store.dirs id := by
   unfold aofRecv
@@ -701,7 +740,7 @@ theorem aofRecv_ok {h : Hist β} (bk : Backend) (F1 : Store β) (x : Id) (ms : L
     intro n
     apply hseg_prefix h x off.toNat k
     have := aofLoop_prefix fin budget ms
-    rw [hms, pay_conts, hb] at this
+    rw [hms, pay_conts_tail _ _ htl, hb] at this
     rw [hms]
     exact (List.take_prefix _ _).trans this
   simp only
@@ -713,16 +752,16 @@ theorem aofRecv_ok {h : Hist β} (bk : Backend) (F1 : Store β) (x : Id) (ms : L
 
 theorem aofSync_ok {h : Hist β} (bk : Backend) (F : Store β) (x : Id) (ms : List (Msg β))
     (fin : Fin) (budget lost : Nat) (id : Id) (hx1 : x ≠ "") (hx2 : x ≠ "?") (hat : At bk F x)
-    (off : Int) (cs : List (List β)) (k : Nat) (hms : ms = conts off cs)
-    (hb : cs.flatten = hseg h x off.toNat k) (hf : FaithfulAt h F.dirs id) :
+    (off : Int) (cs : List (List β)) (tl : List (Msg β)) (k : Nat) (hms : ms = conts off cs ++ tl)
+    (htl : Tail tl) (hb : cs.flatten = hseg h x off.toNat k) (hf : FaithfulAt h F.dirs id) :
     WF bk (aofSync bk F x ⟨.info, "", true, off, -1, []⟩ ms fin budget lost).store ∧
       FaithfulAt h (aofSync bk F x ⟨.info, "", true, off, -1, []⟩ ms fin budget lost).store.dirs id := by
   simp only [aofSync]
   rw [startPoint_at bk F x hx1 hx2 hat]
   split
   · have := reset_at bk F x hx1 hx2 hat
-    exact aofRecv_ok bk _ x ms fin budget lost id hx1 hx2 this.1 off cs k hms hb (hf.of_sub this.2.1)
-  · exact aofRecv_ok bk _ x ms fin budget lost id hx1 hx2 hat off cs k hms hb hf
+    exact aofRecv_ok bk _ x ms fin budget lost id hx1 hx2 this.1 off cs tl k hms htl hb (hf.of_sub this.2.1)
+  · exact aofRecv_ok bk _ x ms fin budget lost id hx1 hx2 hat off cs tl k hms htl hb hf
 
 theorem syncLoop_ok {h : Hist β} (bk : Backend) (V : Nat → View β) (lost : Nat) (x : Id) (id : Id)
     (hx1 : x ≠ "") (hx2 : x ≠ "?") (hL : ∀ n, (V n).l4.Faithful h) :
@@ -782,19 +821,18 @@ theorem syncLoop_ok {h : Hist β} (bk : Backend) (V : Nat → View β) (lost : N
         · exact absurd hr hx1
         · exact absurd hr hx2
       | handover o => exact ⟨hwf, hf⟩
-      | aof off cs k h0 hb =>
+      | aof off cs tl k h0 hb htl =>
         simp only [respErr, Out.pre_store, reduceCtorEq, if_false, if_true]
         rw [hfx] at hb ⊢
-        exact aofSync_ok bk F x _ fin b lost id hx1 hx2 hat off cs k rfl hb hf
-      | rdb off base s cs hs hb =>
+        exact aofSync_ok bk F x _ fin b lost id hx1 hx2 hat off cs tl k rfl htl hb hf
+      | rdb off base s cs tl hs hb htl =>
         simp only [respErr, Out.pre_store, reduceCtorEq, if_false, Bool.false_eq_true]
         rw [hfx] at hs ⊢
         have hr := reset_at bk F x hx1 hx2 hat
         generalize setRunId bk (delRunId bk F x) x = F1 at hr ⊢
         obtain ⟨hat1, hsub1, _⟩ := hr
         have hf1 : FaithfulAt h F1.dirs id := hf.of_sub hsub1
-        have hsz : (s.length : Int).toNat = cs.flatten.length := by rw [hb]; simp
-        rw [hsz]
+        simp only [Int.toNat_natCast]
         split
         · -- interrupted: no snapshot is kept
           have hat2 := setCur_at bk F1 x none hat1
@@ -802,10 +840,11 @@ theorem syncLoop_ok {h : Hist β} (bk : Backend) (V : Nat → View β) (lost : N
           intro _ d hd; cases hd
         · next hcomp =>
           simp only [Out.pre_store]
-          have hall := rdbLoop_conts_complete fin b off cs hcomp
-          rw [hall]
-          have hat2 := setCur_at bk F1 x (some ⟨(base : Int).toNat, [], some (cs.flatten.take cs.flatten.length)⟩) hat1
-          have hf2 : FaithfulAt h (F1.setCur (some ⟨(base : Int).toNat, [], some (cs.flatten.take cs.flatten.length)⟩)).dirs id := by
+          have hall := rdbLoop_complete_eq fin b (conts off cs ++ tl) s
+            (by rw [pay_conts_tail _ _ htl]; exact hb) hcomp
+          rw [hall, List.take_length]
+          have hat2 := setCur_at bk F1 x (some ⟨base, [], some s⟩) hat1
+          have hf2 : FaithfulAt h (F1.setCur (some ⟨base, [], some s⟩)).dirs id := by
             apply setCur_faithful _ _ _ _ hf1
             intro hid' d hd
             cases hd
@@ -813,15 +852,13 @@ theorem syncLoop_ok {h : Hist β} (bk : Backend) (V : Nat → View β) (lost : N
             refine ⟨by simp [hseg], ?_⟩
             intro s' hs'
             simp only [Option.some.injEq] at hs'
-            rw [← hs', List.take_length, hb, hs]
-            simp
-          have hcd := setCur_curData F1 (some ⟨(base : Int).toNat, [], some (cs.flatten.take cs.flatten.length)⟩)
-          generalize F1.setCur (some ⟨(base : Int).toNat, [], some (cs.flatten.take cs.flatten.length)⟩) = F2 at hat2 hf2 hcd ⊢
+            rw [← hs', hs]
+          have hcd := setCur_curData F1 (some ⟨base, [], some s⟩)
+          generalize F1.setCur (some ⟨base, [], some s⟩) = F2 at hat2 hf2 hcd ⊢
           have hid2 := startPoint_at_id bk F2 x hx1 hx2 hat2 _ hcd
           have hst := startPoint_at bk F2 x hx1 hx2 hat2
           rw [hst]
           exact ih _ _ _ F2 _ hat2 hid2 hf2
-
 
 theorem session_ok {h : Hist β} (bk : Backend) (V : Nat → View β) (F : Store β) (ch : List Nat)
     (cut lost fuel : Nat) (id : Id) (hL : ∀ n, (V n).l4.Faithful h) (hq : (V 0).l2.cur ≠ "?")
@@ -849,15 +886,15 @@ theorem session_ok {h : Hist β} (bk : Backend) (V : Nat → View β) (F : Store
         have hp := preSync_ok bk F (V 0).l2.cur o hc hq hwf
         exact syncLoop_ok bk V lost (V 0).l2.cur id hc hq hL fuel 1 b rest _ _ hp.1 hp.2.1 (hf.of_sub hp.2.2)
     | handover o => exact ⟨hwf, hf⟩
-    | aof off cs k h0 hb => exact ⟨hwf, hf⟩
-    | rdb off base s cs hs hb => exact ⟨hwf, hf⟩
+    | aof off cs tl k h0 hb htl => exact ⟨hwf, hf⟩
+    | rdb off base s cs tl hs hb htl => exact ⟨hwf, hf⟩
 
 /-! ### contiguity: the follower never opens a writer away from the end of its data -/
 
 theorem respErr_ne_discont {c : Code} {k : Cls} (h : respErr c = some k) : k ≠ .discont := by
   cases c <;> simp [respErr] at h <;> subst h <;> decide
 
-theorem finCls_ne_discont (f : Fin) : finCls f ≠ .discont := by cases f <;> decide
+theorem finCls_ne_discont (f : Fin) : finCls f ≠ .discont := by cases f <;> simp [finCls]
 
 theorem aofLoop_cls (fin : Fin) (n : Nat) (ms : List (Msg β)) : (aofLoop fin n ms).2.2 ≠ .discont := by
   induction ms generalizing n with
@@ -899,13 +936,13 @@ theorem sendData_aof_off (L : Leader β) (rid : Id) (off : Int) (ch : List Nat) 
   · split at hm
     · split at hm
       · simp only [List.cons.injEq] at hm; rw [← hm.1] at ha; simp [ctl] at ha
-      · simp only [List.cons.injEq] at hm; rw [← hm.1]
+      · split at hm <;> (simp only [List.cons.injEq] at hm; rw [← hm.1])
     · split at hm
       · simp only [List.cons.injEq] at hm; rw [← hm.1] at ha; simp [ctl] at ha
       · split at hm
         · split at hm
           · simp only [List.cons.injEq] at hm; rw [← hm.1] at ha; simp [ctl] at ha
-          · simp only [List.cons.injEq] at hm; rw [← hm.1] at ha; simp at ha
+          · split at hm <;> (simp only [List.cons.injEq] at hm; rw [← hm.1] at ha; simp at ha)
         · simp only [List.cons.injEq] at hm; rw [← hm.1] at ha; simp [ctl] at ha
 
 /-- a stream announcement never starts before the requested offset -/
@@ -1599,7 +1636,7 @@ theorem meta_static {L : Leader β} {x : Id} (hs : Serves L x) (hx1 : x ≠ "") 
 
 theorem handover_static {L : Leader β} {x : Id} (hs : Serves L x) (hx1 : x ≠ "") (hx2 : x ≠ "?")
     (roff : Int) (ch : List Nat) (hgt : roff - latest L.data > 0) :
-    (View.const L).handle x roff ch = ⟨[⟨.handover, x, false, latest L.data, 0, []⟩], .err, ch⟩ := by
+    (View.const L).handle x roff ch = ⟨[⟨.handover, x, false, latest L.data, 0, []⟩], .err .role, ch⟩ := by
   obtain ⟨tl, hi⟩ := hs.ids
   have : ((x = "") || (x = "?")) = false := by simp [hx1, hx2]
   have hgt' : latest L.data < roff := by omega
@@ -1613,18 +1650,17 @@ theorem session_static {L : Leader β} {x : Id} (hs : Serves L x) (hx1 : x ≠ "
           (preSync bk F x (latest L.data)).1 (preSync bk F x (latest L.data)).2) := by
   simp only [session, sessionV, hello_static hs, respErr, hx1, if_false]
 
-/-- the stream reader opened at the leader's newest offset -/
+/-- the stream reader opened at the leader's newest offset: the announcement -/
 theorem sendData_newest {L : Leader β} {x : Id} (hc : L.cur = x) (d : Data β) (hd : L.data = some d)
     (hseg : L.hasSegs d = true) (ch : List Nat) :
-    L.sendData x (d.right : Int) ch =
-      ⟨⟨.info, "", true, d.right, -1, []⟩ :: conts d.right (chop ch L.tail).1, .blocks, (chop ch L.tail).2⟩ := by
+    ∃ ms fin rest, L.sendData x (d.right : Int) ch = ⟨⟨.info, "", true, d.right, -1, []⟩ :: ms, fin, rest⟩ := by
   have hin : L.inAof d (d.right : Int) = true := by
     simp only [Leader.inAof, hseg, Bool.true_and, Bool.and_eq_true, Data.right]
     constructor <;> (apply decide_eq_true; omega)
-  have : ((d.right : Int) - (d.base : Int)).toNat = d.bytes.length := by
-    simp only [Data.right]; omega
-  simp only [Leader.sendData, hd, hin, if_true, hc, ne_eq, not_true_eq_false, if_false, this,
-    List.drop_length, List.nil_append]
+  simp only [Leader.sendData, hd, hin, if_true, hc, ne_eq, not_true_eq_false, if_false]
+  split
+  · exact ⟨_, _, _, rfl⟩
+  · exact ⟨_, _, _, rfl⟩
 
 /-- whatever the receive half stores on an empty cache starts at the announced offset -/
 theorem aofRecv_fresh (F1 : Store β) (left : Nat) (ms : List (Msg β)) (fin : Fin) (budget lost : Nat)
@@ -1876,25 +1912,25 @@ def Reached (L : Leader β) (d : Data β) (o : Out β) : Prop :=
     (∀ e', o.store.curData = some e' → (e'.right : Int) = (d.right : Int) + L.tail.length) ∧
     (o.store.curData = none → L.tail = [])
 
-theorem sendData_aof_eval {L : Leader β} {x : Id} (hc : L.cur = x) (d : Data β) (hd : L.data = some d)
-    (off : Int) (hin : L.inAof d off = true) (ch : List Nat) :
+theorem sendData_aof_eval {L : Leader β} {x : Id} (hc : L.cur = x) (hh : L.halt = none) (d : Data β)
+    (hd : L.data = some d) (off : Int) (hin : L.inAof d off = true) (ch : List Nat) :
     L.sendData x off ch =
       ⟨⟨.info, "", true, off, -1, []⟩ ::
           conts off (chop ch (d.bytes.drop (off - (d.base : Int)).toNat ++ L.tail)).1, .blocks,
         (chop ch (d.bytes.drop (off - (d.base : Int)).toNat ++ L.tail)).2⟩ := by
-  simp only [Leader.sendData, hd, hin, if_true, hc, ne_eq, not_true_eq_false, if_false]
+  simp only [Leader.sendData, hd, hin, if_true, hc, ne_eq, not_true_eq_false, if_false, hh]
 
-theorem sendData_rdb_eval {L : Leader β} {x : Id} (hc : L.cur = x) (d : Data β) (hd : L.data = some d)
-    (off : Int) (hin : L.inAof d off = false) (sn : List β) (hsn : d.snap = some sn)
+theorem sendData_rdb_eval {L : Leader β} {x : Id} (hc : L.cur = x) (hh : L.halt = none) (d : Data β)
+    (hd : L.data = some d) (off : Int) (hin : L.inAof d off = false) (sn : List β) (hsn : d.snap = some sn)
     (hle : off ≤ (d.base : Int)) (ch : List Nat) :
     L.sendData x off ch =
       ⟨⟨.info, "", false, d.base, sn.length, []⟩ :: conts off (chop ch sn).1, .eof, (chop ch sn).2⟩ := by
   simp only [Leader.sendData, hd, hin, Bool.false_eq_true, if_false, hsn, hle, if_true, hc, ne_eq,
-    not_true_eq_false]
+    not_true_eq_false, hh]
 
 /-- one `metaSync` round answered with the stream -/
 theorem syncLoop_reach_aof (bk : Backend) (L : Leader β) (x : Id) (d : Data β) (hs : Serves L x)
-    (hx1 : x ≠ "") (hx2 : x ≠ "?") (hd : L.data = some d)
+    (hh : L.halt = none) (hx1 : x ≠ "") (hx2 : x ≠ "?") (hd : L.data = some d)
     (fuel n b : Nat) (ch : List Nat) (G : Store β) (roff : Int) (hat : At bk G x)
     (hle : roff ≤ (d.right : Int))
     (hpos : ∀ e, G.curData = some e → (e.right : Int) = roff)
@@ -1914,7 +1950,7 @@ theorem syncLoop_reach_aof (bk : Backend) (L : Leader β) (x : Id) (d : Data β)
   obtain ⟨hlo, hhi⟩ := hbounds
   unfold syncLoopV
   simp only
-  rw [meta_static hs hx1 hx2 roff ch hnh, hoff, sendData_aof_eval hs.cur d hd off hin ch]
+  rw [meta_static hs hx1 hx2 roff ch hnh, hoff, sendData_aof_eval hs.cur hh d hd off hin ch]
   simp only [respErr, reduceCtorEq, if_false, if_true, Out.pre_stage, Out.pre_cls, Out.pre_store, Reached]
   have hk : (off - (d.base : Int)).toNat ≤ d.bytes.length := by omega
   have hlen := chop_length_le ch (d.bytes.drop (off - (d.base : Int)).toNat ++ L.tail)
@@ -1936,7 +1972,7 @@ theorem syncLoop_reach_aof (bk : Backend) (L : Leader β) (x : Id) (d : Data β)
 
 /-- a `metaSync` round answered with the snapshot, then one answered with the stream -/
 theorem syncLoop_reach (bk : Backend) (L : Leader β) (x : Id) (d : Data β) (hs : Serves L x)
-    (hx1 : x ≠ "") (hx2 : x ≠ "?") (hd : L.data = some d) (hw : L.hasSegs d = true)
+    (hh : L.halt = none) (hx1 : x ≠ "") (hx2 : x ≠ "?") (hd : L.data = some d) (hw : L.hasSegs d = true)
     (fuel n b : Nat) (ch : List Nat) (G : Store β) (roff : Int) (hat : At bk G x)
     (hle : roff ≤ (d.right : Int))
     (hpos : ∀ e, G.curData = some e → (e.right : Int) = roff)
@@ -1945,7 +1981,7 @@ theorem syncLoop_reach (bk : Backend) (L : Leader β) (x : Id) (d : Data β) (hs
   have hlat : latest L.data = (d.right : Int) := by rw [hd]; rfl
   have hnh : ¬ roff - latest L.data > 0 := by rw [hlat]; omega
   by_cases hin : L.inAof d (if L.valid x roff then roff else latest L.data) = true
-  · exact syncLoop_reach_aof bk L x d hs hx1 hx2 hd (fuel + 1) n b ch G roff hat hle hpos hin (by omega)
+  · exact syncLoop_reach_aof bk L x d hs hh hx1 hx2 hd (fuel + 1) n b ch G roff hat hle hpos hin (by omega)
   · -- not covered by a segment: the offset is valid through the snapshot
     have hnewest : L.inAof d (d.right : Int) = true := by
       simp only [Leader.inAof, hw, Bool.true_and, Bool.and_eq_true, Data.right]
@@ -1969,7 +2005,7 @@ theorem syncLoop_reach (bk : Backend) (L : Leader β) (x : Id) (d : Data β) (hs
     simp only
     rw [meta_static hs hx1 hx2 roff ch hnh, hv]
     simp only [if_true]
-    rw [sendData_rdb_eval hs.cur d hd roff hin0 sn hsnap hrb ch]
+    rw [sendData_rdb_eval hs.cur hh d hd roff hin0 sn hsnap hrb ch]
     simp only [respErr, reduceCtorEq, if_false, Bool.false_eq_true, Int.toNat_natCast]
     have hlen := chop_length_le ch sn
     have hfl := chop_flatten ch sn
@@ -2001,7 +2037,7 @@ theorem syncLoop_reach (bk : Backend) (L : Leader β) (x : Id) (d : Data β) (hs
       rw [hsnap] at hb; simp only [Option.getD_some] at hb
       exact ⟨b - cs.length - 1, by omega⟩
     rw [hb']
-    have := syncLoop_reach_aof bk L x d hs hx1 hx2 hd fuel (n + 1) b' rest F2 (d.base : Int) hat2
+    have := syncLoop_reach_aof bk L x d hs hh hx1 hx2 hd fuel (n + 1) b' rest F2 (d.base : Int) hat2
       (by simp only [Data.right]; omega) (by intro e he; rw [hcd] at he; cases he; simp [Data.right]) hinb
       (by rw [hsnap] at hb; simp only [Option.getD_some] at hb; omega)
     simpa [Reached] using this
